@@ -26,6 +26,7 @@ class World:
         self.meta = sqlalchemy.MetaData()
         self.tables = {}     # leaf id -> (table, cols, rows)
         self.leaf_rows = {}
+        self.leaf_objs = {}
 
     def engine(self, key):
         return self.engines[key]
@@ -116,28 +117,36 @@ def apply_un(rel, o, opts, w):
     raise ValueError(o)
 
 
+def _build_leaf(p, w: World):
+    n, eng, cols, rows = p[1:5]
+    name = f"L{n}"
+    w.reg.names[name] = n
+    w.leaf_rows[n] = rows
+    kind = p[6] if len(p) > 6 else None
+    e = w.engine(eng)
+    if kind == "doomed":
+        return e.make_doomed_relation(set(cols), ["doomed by the harness"], name=name)
+    if kind == "identity":
+        return e.make_join_identity_relation(name=name)
+    mn, mx = leaf_bounds(p)
+    if eng[0] == "sql":
+        t = w.sql_table(n, cols, rows)
+        payload = sql.Payload(t, columns_available={c: t.columns[c.qualified_name] for c in cols})
+        return e.make_leaf(set(cols), payload, min_rows=mn, max_rows=mx, name=name)
+    payload = iteration.RowSequence([dict(r) for r in rows])
+    if len(p) > 5 and p[5] is not None:
+        return dr.LeafRelation(e, frozenset(cols), payload, name=name, min_rows=mn, max_rows=mx)
+    return e.make_leaf(set(cols), payload=payload, name=name)
+
+
 def build_impl(p, w: World):
     k = p[0]
     if k == "leaf":
-        n, eng, cols, rows = p[1:5]
-        name = f"L{n}"
-        w.reg.names[name] = n
-        w.leaf_rows[n] = rows
-        kind = p[6] if len(p) > 6 else None
-        e = w.engine(eng)
-        if kind == "doomed":
-            return e.make_doomed_relation(set(cols), ["doomed by the harness"], name=name)
-        if kind == "identity":
-            return e.make_join_identity_relation(name=name)
-        mn, mx = leaf_bounds(p)
-        if eng[0] == "sql":
-            t = w.sql_table(n, cols, rows)
-            payload = sql.Payload(t, columns_available={c: t.columns[c.qualified_name] for c in cols})
-            return e.make_leaf(set(cols), payload, min_rows=mn, max_rows=mx, name=name)
-        payload = iteration.RowSequence([dict(r) for r in rows])
-        if len(p) > 5 and p[5] is not None:
-            return dr.LeafRelation(e, frozenset(cols), payload, name=name, min_rows=mn, max_rows=mx)
-        return e.make_leaf(set(cols), payload=payload, name=name)
+        n = p[1]
+        # one leaf object per leaf id: a leaf used twice in a program is the SAME relation (and payload) both times
+        if n not in w.leaf_objs:
+            w.leaf_objs[n] = _build_leaf(p, w)
+        return w.leaf_objs[n]
     if k == "un":
         return apply_un(build_impl(p[3], w), p[1], p[2], w)
     if k == "item":
